@@ -568,8 +568,12 @@ func runC06(args []string) error {
 	for i := range sessions {
 		sessions[i] = c06SessionGenerate(auxRng)
 	}
+	aprogs := c06AssertPrograms() // type-assertion matrix: complete in every run
+	ecells := c06EntryCells()     // entry point x panic site x value: complete in every run
 	poolID := func(i int) int { return len(cases) + 1 + i }
 	sessID := func(i int) int { return len(cases) + len(pool) + 1 + i }
+	assertID := func(i int) int { return len(cases) + len(pool) + len(sessions) + 1 + i }
+	entryID := func(i int) int { return len(cases) + len(pool) + len(sessions) + len(aprogs) + 1 + i }
 	asDefs := func(src string) string { return strings.Replace(src, "func main() {", "func Main() {", 1) }
 
 	// ---- implementation (child processes) and reference (compiled Go), concurrently
@@ -591,6 +595,9 @@ func runC06(args []string) error {
 			src := ss.goSource()
 			progs = append(progs, goProg{Name: fmt.Sprintf("c%05d", sessID(i)), Files: map[string]string{"main.go": src, "defs": asDefs(src)}})
 		}
+		for i, ap := range aprogs {
+			progs = append(progs, goProg{Name: fmt.Sprintf("c%05d", assertID(i)), Files: map[string]string{"main.go": ap.Src, "defs": asDefs(ap.Src)}})
+		}
 		var err error
 		refs, err = c06RefAll(progs, 10*time.Second)
 		refDone <- err
@@ -604,6 +611,12 @@ func runC06(args []string) error {
 	}
 	for i := range sessions {
 		ins = append(ins, c06ChildIn{ID: sessID(i), Session: &sessions[i]})
+	}
+	for i, ap := range aprogs {
+		ins = append(ins, c06ChildIn{ID: assertID(i), Src: ap.Src, Aux: true})
+	}
+	for i := range ecells {
+		ins = append(ins, c06ChildIn{ID: entryID(i), Entry: &ecells[i]})
 	}
 	outs := c06RunChildren(ins, 4*time.Second)
 	tImpl := time.Since(t0)
@@ -720,6 +733,90 @@ func runC06(args []string) error {
 		}
 	}
 
+	// ---- type-assertion matrix: every cell vs compiled Go; cells of the baseline c06AssertToday vs the baseline
+	for i, ap := range aprogs {
+		id := assertID(i)
+		impl := outs[id]
+		ref := refs[fmt.Sprintf("c%05d", id)]
+		il, rl := c06AssertLines(impl.Stdout), c06AssertLines(ref.Stdout)
+		op := c06AOperands[i]
+		in := map[string]any{"shape": "assert", "static": op.static, "dynamic": op.dyn, "value": op.value, "source": ap.Src}
+		sm.CaseIndex[fmt.Sprint(id)] = in
+		sm.Evaluations++
+		sm.RefComparisons++
+		sm.count("stream:assert")
+		distinct.add("assert", ap.Src)
+		var known, unknown, drift []string
+		for _, c := range ap.Cells {
+			form := "1"
+			if c.CommaOk {
+				form = "k"
+			}
+			sm.count("assert-cell:" + c.Class + ":" + form)
+			key := c.Static + "|" + c.Dyn + "|" + c.Target + "|" + form
+			desc := fmt.Sprintf("%s x.(%s) [%s, comma-ok=%v]: yaegi %q, compiled Go %q", c.ID, c.Target, c.Class, c.CommaOk, il[c.ID], rl[c.ID])
+			if today, ok := c06AssertToday[key]; ok {
+				if il[c.ID] != today {
+					drift = append(drift, desc+fmt.Sprintf(", recorded behaviour of the unchanged tree %q", today))
+				} else if il[c.ID] != rl[c.ID] {
+					known = append(known, desc)
+				}
+			} else if il[c.ID] != rl[c.ID] {
+				unknown = append(unknown, desc)
+			}
+		}
+		if ref.End != "ok" || impl.End != "ok" {
+			unknown = append(unknown, fmt.Sprintf("program ends: yaegi %q, compiled Go %q", impl.End, ref.End))
+		}
+		if len(known) > 0 {
+			sm.count("region:type-assert-deviations")
+			sm.RefMismatches = append(sm.RefMismatches, refMismatch{ID: id, Region: "type-assert-deviations", Input: in, Impl: known, Ref: "compiled Go", Note: known[0]})
+		}
+		if len(unknown) > 0 {
+			sm.RefMismatches = append(sm.RefMismatches, refMismatch{ID: id, Region: "", Input: in, Impl: unknown, Ref: "compiled Go", Note: unknown[0]})
+		}
+		if len(drift) > 0 {
+			sm.HarnessViolations = append(sm.HarnessViolations, refMismatch{ID: id, Region: "", Input: in, Impl: drift, Ref: "recorded behaviour (c06AssertToday)", Note: drift[0]})
+		}
+	}
+	// ---- entry points x panic sites: every cell vs the contract; cells of finding import-init-panic-escapes vs today's behaviour
+	for i, c := range ecells {
+		id := entryID(i)
+		o := outs[id]
+		src, files, want := c06EntrySources(c)
+		got := "host-crash"
+		usable := ""
+		if len(o.Lines) == 2 {
+			got, usable = o.Lines[0], o.Lines[1]
+		} else if !strings.HasPrefix(o.End, "host-crash") {
+			got = "no result: " + o.End
+		}
+		in := map[string]any{"shape": "entry", "entry": c.Entry, "site": c.Site, "value": c.Val, "source": src, "gopath_files": files}
+		sm.CaseIndex[fmt.Sprint(id)] = in
+		sm.Evaluations++
+		sm.RefComparisons++
+		sm.count("stream:entry")
+		sm.count("entry:" + c.Entry)
+		sm.count("entry-site:" + c.Site)
+		distinct.add("entry", c.Entry, c.Site, c.Val)
+		contract := "panic-err:" + want
+		impl := map[string]any{"outcome": got, "after": usable, "child": o.End}
+		today := c06EntryExpectedToday(c, want)
+		switch {
+		case today != "":
+			sm.count("region:import-init-panic-escapes")
+			if got != today || (today != "host-crash" && usable != "usable") {
+				sm.HarnessViolations = append(sm.HarnessViolations, refMismatch{ID: id, Region: "", Input: in, Impl: impl, Ref: "behaviour of the unchanged tree: " + today + ", usable",
+					Note: "entry " + c.Entry + ", panic in " + c.Site + ": differs from the recorded behaviour of the unchanged tree"})
+			} else {
+				sm.RefMismatches = append(sm.RefMismatches, refMismatch{ID: id, Region: "import-init-panic-escapes", Input: in, Impl: impl, Ref: "contract: " + contract + ", usable"})
+			}
+		case got != contract || usable != "usable":
+			sm.RefMismatches = append(sm.RefMismatches, refMismatch{ID: id, Region: "", Input: in, Impl: impl, Ref: "contract: " + contract + ", usable",
+				Note: "entry " + c.Entry + ", panic in " + c.Site + " (" + c.Val + ")"})
+		}
+	}
+
 	hdr := "From Verif Require Import Defer.Model Defer.Cases.\nImport ListNotations.\nOpen Scope list_scope.\n"
 	per := 250
 	for i, k := 0, 0; i < len(rows); i, k = i+per, k+1 {
@@ -739,6 +836,8 @@ func runC06(args []string) error {
 		"not generated: deferred builtin println (yaegi writes it to Options.Stdout, compiled Go to stderr), panic values of struct type (the run-time prints them differently from fmt), goroutines, runtime.Goexit, os.Exit/log.Fatal",
 		"pool stream (c06_aux.go): deferred method values of host types, interpreted methods with value/pointer receivers, function values in slices/fields/variables with 0..n arguments, the same defer statement executed in a loop and in a recursion on different receivers; compared with compiled Go (and, for interpreted methods in a loop, with the rendering of model Y); not evaluated in Coq",
 		"session stream (c06_aux.go): one interpreter; named function, methods, closure / method value / literal in package variables, global state and host-held function values are used from later Evals and natively after each of 13 kinds of panicking Eval; compared step by step with the same session compiled; not evaluated in Coq",
+		"assert stream (c06_assert.go): failed type assertion as a run-time fault: operand static type x dynamic value x target (concrete, script interface with fewer/equal/more/other methods, host interface, empty interface) x single-value and comma-ok, complete matrix in every run, each cell vs compiled Go; the cells on which the unchanged tree already deviates are held to the recorded baseline c06AssertToday (behavioural, not a model); not evaluated in Coq",
+		"entry stream (c06_entry.go): Eval, EvalWithContext, EvalPath, EvalPathWithContext, Compile+Execute, Compile+ExecuteWithContext, REPL x panic in main / init / package variable / deferred call / nested call / init and variable initialiser of an imported source package x string, error, fault; each cell in a child process against the contract (interp.Panic with the value, no Go panic on any goroutine, 1+1 afterwards); not evaluated in Coq",
 		"every case is also run as Eval(definitions); Eval(\"Main()\"); Eval(\"Probe()\") through Interpreter.Eval on one interpreter: same output, error of type interp.Panic, carried value (reflect.Value layers, kind) as predicted by Y, Probe() = 4242")
 	sm.DistinctNontriv = len(distinct)
 	sm.Rule = "programs = function tables (call trees of depth <= 4) over print/set/defer(named|method|literal|host|close|delete|in a loop)/panic(int|string|error)/" +
